@@ -274,9 +274,13 @@ def rule_operator_table(ctx: Ctx, rid="C02.OP-TABLE"):
     case in _generate_op returning a constant; the lexer pattern of the token, the enum member the
     production returns and the emitted text denote the same operator."""
     gm = ctx.mod(GEN)
-    fn = gm.get_method("PythonCodeGen", "_generate_op")
+    fn = gm.get_method("PythonCodeGen", "_generate_op", required=False)
     table = {}
-    for st in ast.walk(fn):
+    if fn is None:
+        # operators are rendered some other way (templates, a table, a helper object): the exhaustive operator shapes of the
+        # translation rule decide that every member is rendered, and as the right operator
+        ctx.rep.note("no PythonCodeGen._generate_op: operator table decided by the translation rule only")
+    for st in (ast.walk(fn) if fn is not None else ()):
         if isinstance(st, ast.Match):
             for case in st.cases:
                 if isinstance(case.pattern, ast.MatchValue):
@@ -298,7 +302,7 @@ def rule_operator_table(ctx: Ctx, rid="C02.OP-TABLE"):
             ctx.rep.check(m in table, rid, f"{GEN}:PythonCodeGen._generate_op[{m}]",
                           f"renders as {table.get(m)!r}" if m in table else "enum member has no case in _generate_op",
                           site=gm.site(fn), text=m)
-    else:
+    elif fn is not None:
         ctx.rep.note("_generate_op is not a match over enum members with constant returns: operator table decided by the "
                      "translation rule only")
     return len(members)
@@ -798,6 +802,18 @@ def rule_header_imports(ctx: Ctx, rid="C14.HEADER-COVERS-FREE-NAMES"):
             # evaluator globals: exec(..., None, code_holder) gives the function the evaluator module's globals
             src2, attr2 = ev.imports.get(name, (None, None))
             same = (src2, attr2) == (m, n)
+            if not same and src2 is not None:
+                # the same object reached through a re-exporting module: compare where the two names are defined
+                def _origin(modname, attr):
+                    t_ = ctx.src.by_dotted(modname)
+                    if t_ is None:
+                        return ("ext", modname, attr)
+                    m3, nd = ctx.src.resolve_name(t_, attr)
+                    if m3 is None:
+                        return nd if isinstance(nd, tuple) else None
+                    return (m3.rel, getattr(nd, "lineno", None)) if nd is not None else None
+                o1, o2 = _origin(m, n), _origin(src2, attr2)
+                same = o1 is not None and o1 == o2
             ctx.rep.check(same, "C14.EVALUATOR-GLOBALS", f"experiment_evaluator.py[{name}]",
                           f"the evaluator module binds {name} to the same object ({m}.{n})" if same else
                           f"the evaluator module binds {name} to {src2}.{attr2}, the generated header to {m}.{n}",
